@@ -314,7 +314,6 @@ Lemma table_ok_true : table_ok cfg_structs = true.
 Proof. vm_compute. reflexivity. Qed.
 
 (* metadata <-> filter_metadata["mosn.lb"]: printing, reloading and printing again gives the same *)
-Definition all_strings (es : list (string * val)) : Prop := Forall (fun kv => exists s, snd kv = VStr s) es.
 
 Lemma config_to_metadata_of_strings es : all_strings es ->
   flat_map (fun kv : string * val => match snd kv with VJson (JStr s) => [(fst kv, VStr s)] | _ => [] end) (map any_of_str es) = es.
